@@ -6,7 +6,7 @@ from hypothesis import strategies as st
 
 from ..core import Clause, call, require
 from ..oracles import banks_ref as R
-from ..strategies import bank_specs, floats
+from ..strategies import threshold_configs, with_config, bank_specs, floats
 from .c05 import _thr, apply_warmup, bank_labels, build_or_discard, narrowed_specs, warmups
 
 PROPERTY = "C06"
@@ -172,15 +172,16 @@ def _cases():
         "bank": banks, "filt": st.integers(0, 39), "width": widths,
         "bins": st.one_of(floats(0.25, 2.0), floats(0.25, 12.0)),
         "warmup": warmups(),
+        "config": threshold_configs(),
     })
 
 
 def clauses(tier):
     return [
-        Clause("truncated", check_truncated,
+        Clause("truncated", with_config(check_truncated),
                "one (bank, filter, width) per case: documented recipe applied to get_truncated_response vs get_frequency_response; start bin in [0, width); real banks within the half spectrum; finite. Non-trivial = complex filter whose truncated response wraps, or width < 16, or odd width",
                _cases, quick=2000, thorough=200000, fuzz_runs=2500),
-        Clause("half", check_half,
+        Clause("half", with_config(check_half),
                "one (bank, filter, width) per case: half=True has the documented length and equals the leading bins; real banks Hermitian; analytic tri/Fbank vanish above Nyquist; finite. Non-trivial = complex bank, or width < 16, or odd width",
                _cases, quick=1200, thorough=100000),
     ]
